@@ -212,6 +212,27 @@ theorem unknown_reference_is_invalid (st : State) (v : Val)
     rw [List.any_eq_true]; exact ⟨v, hv, hu⟩
   simp [this]
 
+/-- A reference or macro written as a dict *key* is looked at like any other (D35: the implementation used to
+    walk the values of a mapping only): whatever sits in a key of a bound dict is among the values the built-in
+    hooks validate. -/
+theorem dict_key_is_flattened (k v : Val) (rest : List (Val × Val)) (x : Val) (hx : x ∈ flattenVal k) :
+    x ∈ flattenVal (.dict ((k, v) :: rest)) := by
+  simp only [flattenVal, flattenDictVals, List.mem_append]
+  left; left; left; exact hx
+
+/-- … so an unknown reference used as a key of a bound dict makes finalize reject the configuration. -/
+theorem unknown_reference_key_is_invalid (st : State) (key : Scope × Sel) (ps : AList String Val) (p : String)
+    (k v : Val) (rest : List (Val × Val)) (hc : (key, ps) ∈ st.config) (hp : (p, Val.dict ((k, v) :: rest)) ∈ ps)
+    (hu : State.isUnknownRef k = true) : st.builtinHooksOk = false := by
+  apply unknown_reference_is_invalid st k _ hu
+  unfold State.allValues
+  rw [List.mem_flatMap]
+  refine ⟨(key, ps), hc, ?_⟩
+  rw [List.mem_flatMap]
+  refine ⟨(p, Val.dict ((k, v) :: rest)), hp, ?_⟩
+  apply dict_key_is_flattened
+  cases k <;> simp [flattenVal] <;> simp [State.isUnknownRef] at hu
+
 /-! Non-vacuity: lock, failed mutation, unlock block with nested unlock and a raising body. -/
 def demoSt : State := { initState with locked := true }
 example : (step demoSt (.unlock [.unlock [.observe "locked"] true, .observe "locked"] true)).1.locked = true := by
